@@ -1079,3 +1079,15 @@ def _m83():
         yield self.path_stack[-1]
         self.path_stack.pop()
     bb.StackContext.push_path = push_path
+
+
+@mutant('fill_options_dedup_forwarded')
+def _m84():
+    # DynamicLink._fill_options: forwarded link options already present are skipped
+    from bfg9000.builtins import link as bl
+    _patch_source(bl.DynamicLink, '_fill_options', """    self._internal_options.collect(extra_options,
+                                   forward_opts.link_options)""", """    self._internal_options.collect(extra_options)
+    self._internal_options.extend(
+        i for i in forward_opts.link_options
+        if i not in self._internal_options
+    )""")
